@@ -21,9 +21,17 @@ func c16Scenarios() []cParams {
 		"ans:0:proper", "ans:1:proper", "ans:0:reject", "ans:1:reject", "unsol:basetx", "unsol:accept", "unsol:reject", "unsol:header", "tick:4000", "tick:10100"}
 	// calls issued before the handshake completes (the server accepts late) and across a drop
 	manual := CWorldCfg{ConnType: client.ConnectionTypeFull, AutoAccept: false, AutoReady: false, RequestTimeout: 10 * time.Second}
+	manualShort := manual
+	manualShort.MessageTimeout = 3 * time.Second
 	evM := []string{"call:gettx:01", "call:getheader:03", "accept:valid", "ready:1", "ans:0:proper", "ans:1:proper", "ans:0:reject", "tick:4000", "tick:10100", "drop", "tick:2100"}
 	return []cParams{{Prop: "C16", Cfg: cBase(client.ConnectionTypeFull), Events: evA},
-		{Prop: "C16", Cfg: manual, Events: evM, ExtraDepth: 1}}
+		{Prop: "C16", Cfg: manual, Events: evM, ExtraDepth: 1},
+		// start state: a call given up before the handshake completed, whose request is still queued and
+		// is written - and answered - once the connection is ready
+		{Prop: "C16", Cfg: manualShort, Prefix: []string{"call:feequotes:-", "tick:4000", "accept:valid", "ready:1"},
+			Events: []string{"ans:0:proper", "ans:1:proper", "call:gettx:01", "call:feequotes:-", "tick:4000", "tick:10100"}},
+		{Prop: "C16", Cfg: manualShort, Prefix: []string{"call:gettx:01", "tick:4000", "accept:valid", "ready:1"},
+			Events: []string{"ans:0:proper", "ans:1:proper", "ans:0:reject", "call:gettx:01", "call:getheader:03", "tick:4000", "tick:10100"}}}
 }
 
 func c17Scenarios() []cParams {
@@ -139,6 +147,7 @@ func cReplay(prop string) func(json.RawMessage) []core.Violation {
 		if x.Params.Prop == "" {
 			x.Params = cParams{Prop: prop, Cfg: x.Cfg}
 		}
+		x.Params.Prefix = nil // the recorded history already starts with the prefix
 		r := runCHist(x.Params, x.Hist, true)
 		defer r.w.Close()
 		return r.w.viol
